@@ -68,6 +68,16 @@ def run(ctx: Ctx) -> dict:
     bics = c04.registry_bics()
     for b in rng.sample(bics, 40 if ctx.quick else 500):
         pop += [obj("BIC", b), obj("BIC", b.lower()), obj("str", b)]
+    # the same institution with and without the optional branch part: DIFFERENT strings, different values
+    twins = []
+    for b in rng.sample(bics, 12 if ctx.quick else 150):
+        twins.append((obj("BIC", b[:8]), obj("BIC", b[:8] + "XXX")))
+        twins.append((obj("BIC", b[:8]), obj("BIC", b[:8] + "X")))
+        twins.append((obj("BIC", b[:8] + "XXX"), obj("str", b[:8])))
+    for a, b in twins:
+        for kind in ("cmp", "hash", "dict", "sort"):
+            ops.append({"op": "values", "kind": kind, "a": a, "b": b})
+            ops.append({"op": "values", "kind": kind, "a": b, "b": a})
     pop += [obj("IBAN", ""), obj("BIC", ""), obj("BBAN", "", "DE"), obj("str", ""), obj("IBAN", "x"), obj("BIC", "É")]
     # same compact string, different class or country (what a memo keyed by value would confuse)
     pop += [obj("BBAN", "370400440532013000", "DE"), obj("BBAN", "370400440532013000", "AT"),
